@@ -5,6 +5,7 @@ Oracle: rv.model.refcsv.like (dynamic programming over characters).  Observed th
 JS engine through the node driver.
 """
 import random
+import re
 
 from .. import env, util
 from ..gen import enum
@@ -43,6 +44,7 @@ def plan(tier, seed):
     specs += [{'kind': 'newlines', 'engine': e} for e in ('py', 'js')]
     specs += [{'kind': 'quantifiers', 'engine': e} for e in ('py', 'js')]
     specs += [{'kind': 'words', 'engine': e} for e in ('py', 'js')]
+    specs += [{'kind': 'long', 'engine': e, 'n': 400 if tier == 'quick' else 4000} for e in ('py', 'js')]
     specs += [{'kind': 'literal', 'i': i, 'n': 150 if tier == 'quick' else 1500} for i in range(2 if tier == 'quick' else 6)]
     if tier == 'thorough':
         specs += [{'kind': 'derived', 'k': 32, 'i': i} for i in range(32)]
@@ -118,8 +120,46 @@ def rand_char(rng, bmp_only):
         return c
 
 
-def random_pair(rng, bmp_only):
-    text = ''.join(rand_char(rng, bmp_only) for _ in range(rng.randrange(0, 14)))
+# (few % per pattern: the engine translates a pattern into a backtracking regular expression, whose running time on a non-matching text grows with
+#  the number of % as a power of the text length - a cost, not a wrong answer, and not this property's subject)
+LONG_PATTERNS = ['____-__-__ __:__:__', '__:__:__:__:__:__:__', '_' * 20, '%a_b_c_d_e_f_g_h_i%', 'a_b_c_d_e_f_g_h_i_j', '%._._._._._._._._.%', '_.' * 12 + '%', '(_)[_]{_}<_>(_)[%]{_}<_>(_)', 'x_' * 40 + '%y']
+
+
+def long_pairs(rng, n):
+    """Patterns of 17-100 tokens (a token is one wildcard or one run of literal characters): fixed shapes with texts near their language, and
+    random ones derived from 20-80 character texts."""
+    pairs = []
+    for pat in LONG_PATTERNS:
+        base = ''.join({'%': rng.choice(['', 'q', 'zz.']), '_': rng.choice('01a.')}.get(c, c) for c in pat)
+        pairs.append([base, pat])
+        for _ in range(6):
+            j = rng.randrange(len(base) + 1)
+            pairs.append([rng.choice([base[:j] + 'b' + base[j:], base[:j] + base[j + 1:], base[:j] + '_' + base[j + 1:], base[:j] + '%' + base[j + 1:]]), pat])
+    while len(pairs) < n:
+        # derived from the text so that matches are frequent (at most three %, see above), then perturbed in one place
+        t = ''.join(rand_char(rng, True) for _ in range(rng.randrange(20, 80)))
+        pat, i, npct = [], 0, 0
+        while i < len(t):
+            r = rng.random()
+            if r < 0.05 and npct < 3:
+                pat.append('%')
+                npct += 1
+                i += rng.randrange(0, 4)
+            elif r < 0.4:
+                pat.append('_')
+                i += 1
+            else:
+                pat.append(t[i])
+                i += 1
+        if rng.random() < 0.4:
+            j = rng.randrange(len(pat))
+            pat[j:j + 1] = rng.choice([[rand_char(rng, True)], [], ['_', '_'], [pat[j], 'b']])
+        pairs.append([t, ''.join(pat)])
+    return pairs
+
+
+def random_pair(rng, bmp_only, length=None):
+    text = ''.join(rand_char(rng, bmp_only) for _ in range(rng.randrange(0, 14) if length is None else length))
     # derive a pattern from the text so that matches are frequent, then perturb
     pat = []
     i = 0
@@ -324,6 +364,33 @@ def run_shard(spec, res):
                     res.count('js_random_pairs', len(bpairs))
             finally:
                 node.close()
+    elif kind == 'long':
+        pairs = long_pairs(rng, spec['n'])
+        for pr in pairs:
+            res.nontrivial('long', pr[0], pr[1])
+        res.count('long_pattern_pairs', len(pairs))
+        res.count('long_pattern_pairs_over_16_tokens', sum(1 for _t, p_ in pairs if len(re.findall('[%_]|[^%_]+', p_)) > 16))
+        if spec['engine'] == 'py':
+            run_pairs_py(ns, res, pairs, where=False, tag='long')
+            run_pairs_py(ns, res, pairs, where=True, tag='long')
+        else:
+            from ..js import bridge
+            node = bridge.Node.start()
+            if node is not None:
+                try:
+                    r = node.call({'op': 'like_batch', 'pairs': pairs})
+                    res.count('js_queries')
+                    if r['error'] is not None:
+                        res.violation('js-like-raises', 'JS long-pattern batch raised %r' % (r['error'],), {'engine': 'js', 'pairs': pairs[:20], 'where': False})
+                    else:
+                        for (t, p_), row in zip(pairs, r['out']):
+                            res.evaluations += 1
+                            res.count('js_long_pattern_pairs')
+                            exp = refcsv.like(utf16_units(t), utf16_units(p_))
+                            if row[0] is not exp:
+                                res.violation('js-like-mismatch', 'JS like(%r, %r) -> %r, reference %r (long)' % (t, p_, row[0], exp), {'engine': 'js', 'pairs': [[t, p_]], 'where': False})
+                finally:
+                    node.close()
     elif kind == 'derived':
         batch = []
         for idx, ptup in enumerate(enum.words(ALPHABET, 5, 5)):
@@ -345,11 +412,11 @@ def run_shard(spec, res):
 
 def summarize(tier, seed, m):
     return {
-        'rule': 'exhaustive: all patterns of length <= %d x all single-line texts of length <= %d over the 14-symbol alphabet %s through `select like(a1, a2)` (every 5th batch through `where like(a1, a2)`) on the Python engine; patterns <= %d x texts <= %d on the JS engine via node; %d random longer Unicode pairs (pattern derived from the text, then perturbed; for JS half of them with characters outside the BMP, judged on UTF-16 code units)%s; a words leg (py + js): patterns and texts that are names the host language gives a meaning to (Object.prototype / Map / dict members, keywords, constants), plain and with wildcards; a literal leg (py + js): the pattern written as a string literal in the query text (select like(a1, <literal>), both quote styles) - replacement-routine metacharacters (dollar followed by dollar, ampersand, quote or backtick), quotes, backslashes, keywords, comment markers, format placeholders - against texts derived from the pattern. distinct_nontrivial counts pairs whose pattern contains a wildcard or a regular-expression metacharacter (exhaustive legs, disjoint by construction) plus distinct random pairs.' % (
+        'rule': 'exhaustive: all patterns of length <= %d x all single-line texts of length <= %d over the 14-symbol alphabet %s through `select like(a1, a2)` (every 5th batch through `where like(a1, a2)`) on the Python engine; patterns <= %d x texts <= %d on the JS engine via node; %d random longer Unicode pairs (pattern derived from the text, then perturbed; for JS half of them with characters outside the BMP, judged on UTF-16 code units)%s; a long-pattern leg (py + js): patterns of 17-100 tokens (timestamp shapes, twenty underscores, alternating wildcards and metacharacters, random ones derived from 20-80 character texts; at most three percent signs each, the translation being a backtracking regular expression); a words leg (py + js): patterns and texts that are names the host language gives a meaning to (Object.prototype / Map / dict members, keywords, constants), plain and with wildcards; a literal leg (py + js): the pattern written as a string literal in the query text (select like(a1, <literal>), both quote styles) - replacement-routine metacharacters (dollar followed by dollar, ampersand, quote or backtick), quotes, backslashes, keywords, comment markers, format placeholders - against texts derived from the pattern. distinct_nontrivial counts pairs whose pattern contains a wildcard or a regular-expression metacharacter (exhaustive legs, disjoint by construction) plus distinct random pairs.' % (
             PAT_LEN[tier], TXT_LEN[tier], ''.join(ALPHABET), JS_PAT_LEN[tier], JS_TXT_LEN[tier], RANDOM_PAIRS[tier],
             '; every length-5 pattern containing a wildcard (and 1/7 of the others) against texts derived from it (wildcard instantiations and their single-symbol edits)' if tier == 'thorough' else ''),
         'exhaustive': True,
-        'required': ['py_exhaustive_pairs', 'py_random_pairs', 'py_newline_pairs', 'py_quantifier_pairs', 'py_word_pairs', 'py_literal_pattern_queries'],
+        'required': ['py_exhaustive_pairs', 'long_pattern_pairs_over_16_tokens', 'js_long_pattern_pairs', 'py_random_pairs', 'py_newline_pairs', 'py_quantifier_pairs', 'py_word_pairs', 'py_literal_pattern_queries'],
         'assumptions': ['rv.model.refcsv.like is SQL LIKE', 'single-line texts only (no LF, CR, NEL, LS, PS), as quantified'],
     }
 
